@@ -64,6 +64,7 @@ def run(ctx):
     for k in ("tree_states_probed", "membership_proofs", "nonmembership_proofs", "mutations_rejected", "bitflips_rejected"):
         ctx.cov[k] = int(proofs.get(k, 0))
     ctx.cov["hash_families"] = {k: int(fam.get(k, 0)) for k in ("families", "positions", "cross_comparisons", "min_members")}
+    ctx.cov["iavl_prune_refused_after_restart"] = int(R.sum.get("iavl_prune_refused_after_restart", 0))
     ctx.cov["exhaustive"] = True
     ctx.cov["variants"] = ["memdb / goleveldb", "cache 0 / 1 / 10000", "fast storage off (as the gno stores) / on / toggled at Reopen"]
     ctx.log("replayed %d behaviours, %d steps; %d + %d proofs, %d mutations rejected" % (
@@ -72,5 +73,6 @@ def run(ctx):
         "single goroutine; iterators are drained and closed within a step",
         "calls naming a deleted version, pruning while the working tree or a snapshot rests on a pruned version, and pruning with unsaved changes are outside iavl's contract and not generated (spec header)",
         "iavl.AvailableVersions' [0] for an empty DB and versions below the first retained one (lazy deletion) are not compared",
+        "after a restart iavl may refuse DeleteVersionsTo (a deleted version whose root node a retained version shares is rediscovered as first version): counted in iavl_prune_refused_after_restart, the retained versions are still compared in full",
         "collision resistance of SHA-256; ics23 cannot verify empty values (documented), proof runs use non-empty values",
     ]
